@@ -1,6 +1,7 @@
 import OSProofs.Props.C01
 import OSProofs.Props.C01b
 import OSProofs.CodeShaped
+import OSProofs.Ladder
 #print axioms OS.C01_PL
 #print axioms OS.C01_BTF
 #print axioms OS.C01_BTP
@@ -21,3 +22,5 @@ import OSProofs.CodeShaped
 #print axioms OS.plSumQCode_eq_denseRanks
 #print axioms OS.plSumQCode_eq_range
 #print axioms OS.denseRanks_nondecreasing
+#print axioms OS.ladderPairsCode_eq
+#print axioms OS.ladderPairsCode_getElem
